@@ -36,6 +36,11 @@
 //!   every extras session ends with `finalize_with_file_info`: each file has a record, its size, segment byte sum and SHA-256
 //!   (own implementation, self-tested) are right; downloads also use edge ranges (start == end, first / last byte, end beyond the
 //!   file: an error or the part inside the file) and alternate smudge_file_from_pointer / smudge_file_from_hash.
+//! C14 (light): after every session in which every call returned Ok (three-store scenario and extras; not E8, where two sessions
+//! write into one store at the same time) the metrics of finalize must satisfy xorb_bytes_uploaded == bytes of the `default.<hash>`
+//! files new in the store's xorb directory (only >= for concurrent cleaner tasks and for xorb limits of 1-2 chunks, where the same xorb
+//! can be put twice at the same time), shard_bytes_uploaded == bytes of the `.mdb` files created or replaced in its shard directory (a shard identical to an earlier
+//! one is uploaded and written again), total == sum.
 //! Further children: (E) 2 KiB chunks with divisor 4 / multiplier 3, 2-chunk xorbs, 5000-byte ingestion blocks and (F) 1-chunk xorbs -
 //! extras only; (G) 4 KiB chunks, 40-chunk xorbs, fragmentation estimator over 4 ranges, repo salt 0x5a.., global dedup policy Never;
 //! (H) 4 KiB chunks, 100,000-byte xorbs, minimum shard size 2048 (several session shards), default 8 MiB ingestion block;
@@ -434,10 +439,72 @@ fn build(l: &Limits, seed: u64) -> (Vec<Spec>, Vec<Session>) {
 }
 
 // ---------------------------------------------------------------------------------------------------------------------------------
+// C14 (light): the upload byte counters of a successful session against what appeared in the local store
+// ---------------------------------------------------------------------------------------------------------------------------------
+
+/// (name -> size) of the xorb files `default.<64 hex>` and of the `.mdb` shard files of the local store under `base`
+/// (`<base>/xet/xorbs/xorbs`, `<base>/xet/xorbs/shards` - the layout of TranslatorConfig::local_config / make_cfg)
+struct StoreSnap {
+    /// name -> (size, inode, modification time): a file replaced by rename (a shard identical to an earlier one uploaded again)
+    /// shows as a changed inode / time
+    xorbs: HashMap<String, (u64, u64, i64, i64)>,
+    shards: HashMap<String, (u64, u64, i64, i64)>,
+}
+fn store_snap(base: &Path) -> StoreSnap {
+    use std::os::unix::fs::MetadataExt;
+    let list = |dir: std::path::PathBuf, keep: &dyn Fn(&str) -> bool| -> HashMap<String, (u64, u64, i64, i64)> {
+        let mut m = HashMap::new();
+        if let Ok(rd) = std::fs::read_dir(dir) {
+            for e in rd.flatten() {
+                let name = e.file_name().to_string_lossy().to_string();
+                if keep(&name) {
+                    if let Ok(md) = e.metadata() {
+                        if md.is_file() {
+                            m.insert(name, (md.len(), md.ino(), md.mtime(), md.mtime_nsec()));
+                        }
+                    }
+                }
+            }
+        }
+        m
+    };
+    let root = base.join("xet").join("xorbs");
+    StoreSnap {
+        xorbs: list(root.join("xorbs"), &|n| n.strip_prefix("default.").map(|h| h.len() == 64 && h.bytes().all(|c| c.is_ascii_hexdigit())).unwrap_or(false)),
+        shards: list(root.join("shards"), &|n| n.ends_with(".mdb") && !n.starts_with('.')),
+    }
+}
+/// every call of the session returned Ok: xorb_bytes_uploaded == bytes of the xorb files new in the store (put reports 0 for a xorb
+/// that exists), shard_bytes_uploaded == bytes of the new shard files, total == xorb + shard.
+/// `exact` = false where one session can hand the SAME xorb to the store twice at the same time (identical content cleaned by
+/// concurrently running tasks; xorb limits of 1-2 chunks, where a chunk stored again is a whole xorb again): both puts see "not
+/// there", both transmit and both are counted, but one file results - then only reported >= stored is required.
+fn check_upload_metrics(before: &StoreSnap, base: &Path, m: &deduplication::DeduplicationMetrics, exact: bool) -> Option<String> {
+    let after = store_snap(base);
+    // xorbs: new names (put never rewrites an existing xorb); shards: new names and files replaced during the session (the store
+    // writes an uploaded shard to a temporary file and renames it, also over an identical earlier shard)
+    let new_x: Vec<(&String, u64)> = after.xorbs.iter().filter(|(k, _)| !before.xorbs.contains_key(*k)).map(|(k, v)| (k, v.0)).collect();
+    let new_s: Vec<(&String, u64)> = after.shards.iter().filter(|(k, v)| before.shards.get(*k) != Some(v)).map(|(k, v)| (k, v.0)).collect();
+    let n_replaced = new_s.iter().filter(|(k, _)| before.shards.contains_key(*k)).count();
+    let (xb, sb): (u64, u64) = (new_x.iter().map(|(_, n)| *n).sum(), new_s.iter().map(|(_, n)| *n).sum());
+    if (exact && m.xorb_bytes_uploaded as u64 != xb) || (m.xorb_bytes_uploaded as u64) < xb {
+        return Some(format!("every call of the session returned Ok; finalize() reports xorb_bytes_uploaded = {} but the {} xorb files that appeared in the store during the session hold {xb} bytes (the store had {} xorbs before)", m.xorb_bytes_uploaded, new_x.len(), before.xorbs.len()));
+    }
+    if m.shard_bytes_uploaded as u64 != sb {
+        return Some(format!("every call of the session returned Ok; finalize() reports shard_bytes_uploaded = {} but the {} shard files written into the store during the session ({n_replaced} of them replacing an identical earlier shard) hold {sb} bytes", m.shard_bytes_uploaded, new_s.len()));
+    }
+    if m.total_bytes_uploaded != m.shard_bytes_uploaded + m.xorb_bytes_uploaded {
+        return Some(format!("every call of the session returned Ok; finalize() reports total_bytes_uploaded = {} with xorb_bytes_uploaded = {} and shard_bytes_uploaded = {}", m.total_bytes_uploaded, m.xorb_bytes_uploaded, m.shard_bytes_uploaded));
+    }
+    None
+}
+
+// ---------------------------------------------------------------------------------------------------------------------------------
 // driving the real code
 // ---------------------------------------------------------------------------------------------------------------------------------
 
-async fn upload(cfg: Arc<TranslatorConfig>, tp: Arc<ThreadPool>, specs: &[Spec], s: &Session, part: &Part) -> Result<Vec<PointerFile>, String> {
+async fn upload(cfg: Arc<TranslatorConfig>, tp: Arc<ThreadPool>, specs: &[Spec], s: &Session, part: &Part, store: &Path) -> Result<Vec<PointerFile>, String> {
+    let before = store_snap(store);
     let session = FileUploadSession::new(cfg, tp, None).await.map_err(|e| format!("FileUploadSession::new fails: {e}"))?;
     let mut pointers = vec![];
     if !s.round_robin {
@@ -481,6 +548,9 @@ async fn upload(cfg: Arc<TranslatorConfig>, tp: Arc<ThreadPool>, specs: &[Spec],
     }
     let m = session.finalize().await.map_err(|e| format!("finalize fails: {e}"))?;
     note_metrics(&m);
+    if let Some(w) = check_upload_metrics(&before, store, &m, true) {
+        return Err(w);
+    }
     Ok(pointers)
 }
 
@@ -533,7 +603,7 @@ async fn run_all(tp: Arc<ThreadPool>, l: Arc<Limits>, specs: Arc<Vec<Spec>>, ses
             } else {
                 make_cfg(dir.path(), salt, never)
             };
-            let pointers = match upload(cfg.clone(), tp.clone(), &specs, s, part).await {
+            let pointers = match upload(cfg.clone(), tp.clone(), &specs, s, part, dir.path()).await {
                 Ok(p) => p,
                 Err(e) => return Some(format!("{ctx}: session {} does not complete: {e}", si + 1)),
             };
@@ -744,7 +814,8 @@ impl utils::progress::ProgressUpdater for CountingUpdater {
 }
 
 /// one session: all files one after the other, or each in its own concurrently running task; finalize_with_file_info
-async fn xsession(cfg: Arc<TranslatorConfig>, tp: Arc<ThreadPool>, files: &[XF], concurrent: bool, files_dir: &Path) -> Result<Done, String> {
+async fn xsession(cfg: Arc<TranslatorConfig>, tp: Arc<ThreadPool>, files: &[XF], concurrent: bool, files_dir: &Path, store: &Path, exact: bool) -> Result<Done, String> {
+    let before = store_snap(store);
     // the optional progress updater is given in the concurrent sessions
     let updater: Option<Arc<dyn utils::progress::ProgressUpdater>> = if concurrent { Some(Arc::new(CountingUpdater::default())) } else { None };
     let session = FileUploadSession::new(cfg, tp, updater).await.map_err(|e| format!("FileUploadSession::new fails: {e}"))?;
@@ -781,6 +852,9 @@ async fn xsession(cfg: Arc<TranslatorConfig>, tp: Arc<ThreadPool>, files: &[XF],
     }
     let (m, infos) = session.finalize_with_file_info().await.map_err(|e| format!("finalize_with_file_info fails: {e}"))?;
     note_metrics(&m);
+    if let Some(w) = check_upload_metrics(&before, store, &m, exact && !concurrent) {
+        return Err(w);
+    }
     Ok(Done { pointers: pointers.into_iter().map(|p| p.unwrap()).collect(), infos })
 }
 
@@ -916,7 +990,7 @@ impl Xs {
     async fn step(&mut self, ctx: &str, store: &Path, salt: [u8; 32], files: &[XF], concurrent: bool, earlier: &mut Vec<(XF, PointerFile, [u8; 32])>) -> Option<String> {
         let ctx = format!("config {}; extras, {ctx}", self.cfg_name);
         *CURRENT_STEP.lock().unwrap_or_else(|e| e.into_inner()) = format!("{ctx}; files: {}", files.iter().map(|f| format!("'{}' ({} bytes)", f.name, f.data.len())).collect::<Vec<_>>().join(", "));
-        let done = match xsession(make_cfg(store, salt, self.never), self.tp.clone(), files, concurrent, self.files_dir.path()).await {
+        let done = match xsession(make_cfg(store, salt, self.never), self.tp.clone(), files, concurrent, self.files_dir.path(), store, self.l.xorb_chunks > 2).await {
             Ok(d) => d,
             Err(e) => return Some(format!("{ctx}: the session does not complete: {e}")),
         };
@@ -1073,12 +1147,16 @@ async fn extras(tp: Arc<ThreadPool>, l: Arc<Limits>, cfg_name: String, seed: u64
             }
             drop(half);
             drop(session);
+            // the aborted upload tasks of the dropped session end within their current poll; let them, so that the snapshot of the
+            // store taken for the next session's byte counters is stable
+            tokio::time::sleep(std::time::Duration::from_millis(150)).await;
         }
         let f_poison = xf("poison", format!("{} fresh chunks; the same file was cleaned and finished in session 0, which was dropped without finalize", poison_chunks.len()), poison.clone(), smalls.clone());
         let f_base = xf("base", format!("{nb} fresh chunks (one full xorb + 8); also cleaned in the abandoned session 0"), base.clone(), one.clone());
         // a cleaner fed and dropped inside a session that IS finalized
         {
             let ctx = format!("config {}; extras, E4 session 1 after an abandoned session 0 (first a cleaner fed with all but 10 bytes of 'base' and dropped without finish, then 'poison', 'base')", x.cfg_name);
+            let before = store_snap(store.path());
             let session = match FileUploadSession::new(make_cfg(store.path(), zero, never), x.tp.clone(), None).await { Ok(s) => s, Err(e) => return Some(format!("{ctx}: FileUploadSession::new fails: {e}")) };
             let mut half = session.start_clean("half".into());
             if let Err(e) = half.add_data(&base[..base.len() - 10]).await {
@@ -1090,7 +1168,16 @@ async fn extras(tp: Arc<ThreadPool>, l: Arc<Limits>, cfg_name: String, seed: u64
             for f in &files {
                 match feed_one(&session, f, x.files_dir.path(), false).await { Ok(p) => pointers.push(p), Err(e) => return Some(format!("{ctx}: {e}")) }
             }
-            let infos = match session.finalize_with_file_info().await { Ok((m, i)) => { note_metrics(&m); i }, Err(e) => return Some(format!("{ctx}: finalize_with_file_info fails: {e}")) };
+            let infos = match session.finalize_with_file_info().await {
+                Ok((m, i)) => {
+                    note_metrics(&m);
+                    if let Some(w) = check_upload_metrics(&before, store.path(), &m, l.xorb_chunks > 2) {
+                        return Some(format!("{ctx}: {w}"));
+                    }
+                    i
+                },
+                Err(e) => return Some(format!("{ctx}: finalize_with_file_info fails: {e}")),
+            };
             let done = Done { pointers, infos };
             if let Some(w) = check_done(&l, &mut x.refs, &zero, &files, &done) {
                 return Some(format!("{ctx}: {w}"));
